@@ -34,8 +34,8 @@ claimed = {
   technique=SIM + ": replicated state machine replicas on skewed fake clocks with snapshot/restore restarts, canonical-form comparison, invariant checker",
   ref="3 C06"),
  "C07": dict(
-  text="Three modes. snapshot: a generated command log with 1-4 snapshots taken at seeded positions and persisted 0-12 commands later (the interleaving raft produces); the restored image must equal the state at the snapshot position in full and a node restarted from it converges after replaying the suffix. accept: request bodies of every command type with absent/foreign/empty/garbage/truncated payloads - whatever the execute endpoint's validation accepts must apply on the state machine without panic. cluster: three real meta nodes (meta.Service with its HTTP handler, store, hashicorp/raft with bolt stores and file snapshots, the raft layer behind tcp.Mux) joined through the real /join endpoint on the simulated network and clock; a real meta.Client executes create/drop database, create retention policy, create user while nodes - any, or the current leader - are stopped, restarted, made to refuse incoming connections and healed; after the last fault and 45 simulated seconds every acknowledged change must be present on every node (an acknowledged drop stays dropped), all nodes hold identical metadata, and a new command commits.",
-  note="cluster mode is one run in six; stops are clean closes (bolt's crash consistency is not explored); isolation is asymmetric (incoming refused) because the dial seam does not know the caller; raft's snapshot threshold is not reached in cluster runs (the snapshot mode covers persist/restore of the state machine); no data nodes take part",
+  text="Three modes. snapshot: a generated command log with 1-4 snapshots taken at seeded positions and persisted 0-12 commands later (the interleaving raft produces); the restored image must equal the state at the snapshot position in full and a node restarted from it converges after replaying the suffix. accept: request bodies of every command type with absent/foreign/empty/garbage/truncated payloads - whatever the execute endpoint's validation accepts must apply on the state machine without panic. cluster: three real meta nodes (meta.Service with its HTTP handler, store, hashicorp/raft with bolt stores and file snapshots, the raft layer behind tcp.Mux) joined through the real /join endpoint on the simulated network and clock; a real meta.Client executes create/drop database, create retention policy, create user while nodes - any, or the current leader - are stopped, restarted, made to refuse incoming connections, cut off from their raft peers in both directions (HTTP still reachable) and healed; a command that does not return while a fault lasts is left running and must return after the heal; after the last fault and 45 simulated seconds every acknowledged change must be present on every node (an acknowledged drop stays dropped), all nodes hold identical metadata, and a new command commits.",
+  note="cluster mode is one run in six; stops are clean closes (bolt's crash consistency is not explored); raft's snapshot threshold is not reached in cluster runs (the snapshot mode covers persist/restore of the state machine); no data nodes take part",
   technique=SIM + ": state-machine replay with seeded snapshot/persist interleavings; in-process raft cluster of real meta services on a simulated network and clock with node stop/restart/isolation faults; acknowledged-changes model and replica equality",
   ref="3 C07; 7.2"),
  "C08": dict(
